@@ -25,9 +25,9 @@ type c13Track struct {
 	local      bool
 }
 
-func vfDTLSRBroadcast(srcNode string, prevNode string, seq uint64) bpv7.Bundle {
+func vfDTLSRBroadcast(srcNode string, prevNode string, seq uint64, staleMs uint64) bpv7.Bundle {
 	src := bpv7.MustNewEndpointID("dtn://" + srcNode + "/")
-	data := bpv7.DTLSRPeerData{ID: src, Timestamp: bpv7.DtnTimeNow(), Peers: map[bpv7.EndpointID]bpv7.DtnTime{bpv7.MustNewEndpointID("dtn://x1/"): 0}}
+	data := bpv7.DTLSRPeerData{ID: src, Timestamp: bpv7.DtnTimeNow() - bpv7.DtnTime(staleMs), Peers: map[bpv7.EndpointID]bpv7.DtnTime{bpv7.MustNewEndpointID("dtn://x1/"): 0}}
 	bl := bpv7.Builder().CRC(bpv7.CRC32).Source(src).Destination(dtlsrBroadcastAddress).CreationTimestampNow().Lifetime("1m").
 		BundleCtrlFlags(bpv7.MustNotFragmented).Canonical(bpv7.NewDTLSRBlock(data))
 	if prevNode != "" {
@@ -59,6 +59,7 @@ func c13Body(c *vk.Ctx, cs hCase) {
 		return t
 	}
 	nBroadcast := uint64(0)
+	seenOrigin := map[string]bool{}
 	for k, op := range cs.Ops {
 		applied := false
 		switch op.Op {
@@ -88,8 +89,19 @@ func c13Body(c *vk.Ctx, cs hCase) {
 			if op.Flag {
 				prev = w.names[op.A%cs.NPeers]
 			}
-			b := vfDTLSRBroadcast(fmt.Sprintf("origin%d", nBroadcast), prev, nBroadcast)
-			w.step = fmt.Sprintf("#%d a link-state broadcast arrives (previous node %q)", k, prev)
+			// two origins only, so that later announcements of an origin meet stored data; half of
+			// them carry link-state data older than what the node already has
+			origin := fmt.Sprintf("origin%d", op.B%2)
+			stale := uint64(0)
+			if op.B >= 2 {
+				stale = 5000
+			}
+			if seenOrigin[origin] {
+				c.Classf("repeated link-state origin (stale data: %v)", stale > 0)
+			}
+			seenOrigin[origin] = true
+			b := vfDTLSRBroadcast(origin, prev, nBroadcast, stale)
+			w.step = fmt.Sprintf("#%d a link-state broadcast of %s arrives (previous node %q, data %d ms old)", k, origin, prev, stale)
 			w.s.logf("%s", w.step)
 			t := get(b.ID().String())
 			t.prev, t.broadcast = prev, true
@@ -268,4 +280,155 @@ func TestVerifC13Histories(t *testing.T) {
 		cs.Ops = append(pre, cs.Ops...)
 		return cs
 	}, c13Body)
+}
+
+// ---- directed scenarios: every combination of a small set of circumstances ---------------------
+
+type c13Dir struct {
+	Algo     string `json:"algo"`
+	Local    bool   `json:"local"`      // submitted locally (else received from P = peer 0)
+	DestPeer bool   `json:"dest_peer"`  // destination is peer D (= peer 1), else a node that never connects
+	DUp      bool   `json:"d_up"`       // D connected when the bundle arrives
+	DFails   bool   `json:"d_fails"`    // transmissions to D fail
+	DDown    bool   `json:"d_down"`     // D disappears afterwards
+	PLate    bool   `json:"p_late"`     // P appears only after the bundle arrived
+	Q        int    `json:"q"`          // third peer: 0 never, 1 before the bundle, 2 after it, 3 before it and failing first
+	Restart  bool   `json:"restart"`    // orderly restart before the last ticks
+	Copies   int    `json:"copies"`     // binary spray: copies announced in the received bundle (0 = no block)
+	Bcast    int    `json:"bcast"`      // dtlsr: link-state broadcasts of one origin arriving via P: 0 none, 1 = two fresh ones, 2 = fresh then stale, 3 = fresh, stale, fresh
+}
+
+func (d c13Dir) history() hCase {
+	cs := hCase{Algo: d.Algo, NPeers: 3, L: 4}
+	if d.Algo != "spray" && d.Algo != "binary_spray" {
+		cs.L = 0
+	}
+	dest := 3
+	if d.DestPeer {
+		dest = 1
+	}
+	cs.Bundles = []hBundle{{Local: d.Local, Dest: dest, Prev: 0, Copies: d.Copies}}
+	op := func(o string, a int, f bool) { cs.Ops = append(cs.Ops, hOp{Op: o, A: a, Flag: f}) }
+	if !d.PLate {
+		op("up", 0, false)
+	}
+	if d.DUp {
+		op("up", 1, false)
+		if d.DFails {
+			op("script", 1, false)
+		}
+	}
+	if d.Q == 1 || d.Q == 3 {
+		op("up", 2, false)
+		if d.Q == 3 {
+			op("script", 2, false)
+		}
+	}
+	op("advertise", 0, false)
+	if d.Local {
+		op("submit", 0, false)
+	} else {
+		op("recv", 0, false)
+	}
+	bc := func(stale bool) {
+		b := 0
+		if stale {
+			b = 2
+		}
+		cs.Ops = append(cs.Ops, hOp{Op: "recvbroadcast", A: 0, B: b, Flag: true})
+	}
+	switch d.Bcast {
+	case 1:
+		bc(false)
+		bc(false)
+	case 2:
+		bc(false)
+		bc(true)
+	case 3:
+		bc(false)
+		bc(true)
+		bc(false)
+	}
+	op("tick", 0, false)
+	if d.DDown {
+		op("down", 1, false)
+	}
+	if d.PLate {
+		op("up", 0, false)
+	}
+	if d.Q == 2 {
+		op("up", 2, false)
+	}
+	if d.Q == 3 {
+		op("script", 2, true)
+	}
+	op("advertise", 0, false)
+	op("tick", 0, false)
+	if d.Restart {
+		op("restart", 0, false)
+		op("up", 0, false)
+		op("up", 2, false)
+		op("advertise", 0, false)
+	}
+	op("tick", 0, false)
+	op("tick", 0, false)
+	return cs
+}
+
+func TestVerifC13Directed(t *testing.T) {
+	u := vk.Unit{Property: "C13", Name: "c13.directed",
+		Rule: "exhaustive product of circumstances around ONE bundle and three peers P (previous node), D (destination node) and Q (relay), per algorithm (epidemic, prophet, spray, binary_spray with 0/1/5 announced copies, dtlsr, sensor-mule): submitted or received from P; destination D or a node that never connects; D connected at arrival or not, its transmissions failing or not, D disappearing afterwards or not; P connected before or only after the arrival; Q never / before / after / before-and-failing-first; orderly restart or not; for dtlsr additionally two or three link-state broadcasts of one origin arriving via P with fresh or stale link-state data; then retry ticks. Oracle as c13.histories. Every case is non-trivial (the previous node is connected while the bundle is held); distinct by tuple"}
+	vk.Enumerate(t, u, true, func(yield func(c13Dir) bool) {
+		i := 0
+		bools := []bool{false, true}
+		for _, algo := range []string{"epidemic", "prophet", "spray", "binary_spray", "dtlsr", "sensor-mule"} {
+			copies := []int{0}
+			if algo == "binary_spray" {
+				copies = []int{0, 1, 5}
+			}
+			for _, local := range bools {
+				for _, cp := range copies {
+					if local && cp != 0 {
+						continue
+					}
+					for _, destPeer := range bools {
+						for _, dUp := range bools {
+							for _, dFails := range bools {
+								for _, dDown := range bools {
+									if !destPeer && (dUp || dFails || dDown) {
+										continue
+									}
+									if !dUp && (dFails || dDown) {
+										continue
+									}
+									for _, pLate := range bools {
+										for q := 0; q <= 3; q++ {
+											for _, restart := range bools {
+												bcasts := []int{0}
+												if algo == "dtlsr" && !destPeer {
+													bcasts = []int{0, 1, 2, 3}
+												}
+												for _, bcast := range bcasts {
+													i++
+													if !vk.ShardOwns(i) {
+														continue
+													}
+													if !yield(c13Dir{algo, local, destPeer, dUp, dFails, dDown, pLate, q, restart, cp, bcast}) {
+														return
+													}
+												}
+											}
+										}
+									}
+								}
+							}
+						}
+					}
+				}
+			}
+		}
+	}, func(c *vk.Ctx, d c13Dir) {
+		c.NonTrivial()
+		c13Body(c, d.history())
+	})
 }
